@@ -1,7 +1,11 @@
 import Gleece.Properties.C02
+import Gleece.Properties.Serve
 #print axioms Gleece.Router.mem_registrations
 #print axioms Gleece.Router.registrations_length
 #print axioms Gleece.Router.documented_subset_served
 #print axioms Gleece.Router.served_not_documented_iff_hidden
 #print axioms Gleece.Router.served_eq_documented_plain
 #print axioms Gleece.Router.served_rooted
+#print axioms Gleece.Serve.unmatched_not_served
+#print axioms Gleece.Serve.served_by_matching_route
+#print axioms Gleece.Serve.matchSegs_literal
